@@ -25,6 +25,7 @@ import (
 
 	"github.com/sourcenetwork/defradb/client"
 	"github.com/sourcenetwork/defradb/errors"
+	"github.com/sourcenetwork/defradb/internal/datastore"
 	"github.com/sourcenetwork/defradb/internal/db/description"
 )
 
@@ -69,7 +70,46 @@ func (db *DB) loadSchema(ctx context.Context) error {
 		return err
 	}
 
-	return db.parser.SetSchema(ctx, definitions)
+	err = db.parser.SetSchema(ctx, definitions)
+	if err != nil {
+		return err
+	}
+
+	// The types handed to the parser above were generated from the snapshot of this transaction.
+	// The snapshot of a transaction owned by the caller can be arbitrarily old: a transaction that
+	// committed after it was taken may have added or changed other definitions, and installing the
+	// types of the older snapshot would hide them from the query language. Once such a transaction
+	// has committed, the types are therefore generated again from the committed state (the callback
+	// runs after the one registered by SetSchema). A transaction created for the duration of a
+	// single call does not outlive its snapshot and does not need this.
+	txn := datastore.CtxMustGetTxn(ctx)
+	if dbTxn, ok := txn.(*Txn); !ok || !dbTxn.explicit {
+		return nil
+	}
+	txn.OnSuccess(func() {
+		db.schemaReloadMu.Lock()
+		defer db.schemaReloadMu.Unlock()
+
+		reloadCtx := datastore.CtxSetTxn(context.WithoutCancel(ctx), nil)
+		reloadCtx, reloadTxn, err := ensureContextTxn(reloadCtx, db, true)
+		if err != nil {
+			log.ErrorContextE(ctx, "Failed to reload the schema after commit", err)
+			return
+		}
+		defer reloadTxn.Discard(reloadCtx)
+
+		definitions, err := db.getAllActiveDefinitions(reloadCtx)
+		if err == nil {
+			err = db.parser.SetSchema(reloadCtx, definitions)
+		}
+		if err == nil {
+			err = reloadTxn.Commit(reloadCtx)
+		}
+		if err != nil {
+			log.ErrorContextE(ctx, "Failed to reload the schema after commit", err)
+		}
+	})
+	return nil
 }
 
 // patchSchema takes the given JSON patch string and applies it to the set of SchemaDescriptions
